@@ -65,6 +65,7 @@ def run(ctx) -> None:
     ctx.rule("R11.7", "cache_clear / cache_info / cache_parameters discipline: every counter is reset to 0, nothing else survives a clear (R10.3, shared)")
     for kind in CLASSES:
         c10.r10_3(Relabel(ctx, "R11.7"), LruClass(ctx, kind))
+        c10.r10_10(Relabel(ctx, "R11.7"), LruClass(ctx, kind), "R11.7")
     ctx.rule("R11.9", "every hit refreshes the entry's recency, whatever happened while other calls were in flight (R10.2, shared)")
     c10.r10_2(Relabel(ctx, "R11.9"), LruClass(ctx, "cached"))
     ctx.rule("R11.8", "two calls share an entry only if their argument patterns are equal: key table vs functools._make_key (R10.1, shared)")
